@@ -1,6 +1,6 @@
 Require Extraction.
 Require Import ExtrOcamlBasic.
-From LedgerV Require Import Base.Prelude Base.Round Base.ExtractHelpers Model.Amount Model.AmountText Model.Xact Model.Print.
+From LedgerV Require Import Base.Prelude Base.Round Base.ExtractHelpers Model.Amount Model.AmountText Model.Xact Model.Assert Model.Print.
 Extraction "model_C06.ml" h_add h_mul h_div h_mod h_opp h_ltb h_eqb h_qred h_qmake h_qnum h_qden
   run_journal cost_per_unit cost_total finalize learn_posts cp_of
-  attach decide reread read_back read_back_value equity_account equity_account_reread xact_printed account_width sep_blanks posting_blanks.
+  attach decide reread read_back read_back_value equity_account equity_account_reread xact_printed account_width sep_blanks posting_blanks run_journal_l run_journal_a.
